@@ -3,6 +3,19 @@ from typing import Dict
 from statham.schema.constants import JSONElement
 
 
+def _safe_repr(value, render=repr) -> str:
+    """Render a value for an error message, whatever its size.
+
+    Python refuses to convert integers beyond ``sys.get_int_max_str_digits()``
+    to text; such values are shown by type rather than raising ``ValueError``
+    from inside error reporting.
+    """
+    try:
+        return render(value)
+    except ValueError:
+        return f"<{type(value).__name__} too large to display>"
+
+
 class StathamError(Exception):
     """Base exception for errors relating to :mod:`statham`."""
 
@@ -26,9 +39,9 @@ class ValidationError(StathamError):
     @classmethod
     def from_validator(cls, property_, value, message) -> "ValidationError":
         value_string = (
-            f"{repr(property_.parent)}.{property_.name} = {repr(value)}`"
+            f"{repr(property_.parent)}.{property_.name} = {_safe_repr(value)}`"
             if property_.name != "<unbound>"
-            else repr(value)
+            else _safe_repr(value)
         )
         return cls(f"Failed validating `{value_string}`. {message}")
 
@@ -47,7 +60,7 @@ class ValidationError(StathamError):
     def multiple_composition_match(cls, matching_models, data):
         return cls(
             "Matches multiple possible models. Must only match one.\n"
-            f"Data: {data}\n"
+            f"Data: {_safe_repr(data, str)}\n"
             f"Models: {matching_models}"
         )
 
